@@ -197,6 +197,9 @@ mod tests;
 pub mod variable_versions;
 #[cfg(netflow_parser_verif)]
 pub mod verif_hooks;
+#[cfg(netflow_parser_verif)]
+#[allow(unused_imports)]
+use verif_hooks::HashSetExt as _;
 
 use crate::netflow_common::{NetflowCommon, NetflowCommonError, NetflowCommonFlowSet};
 
